@@ -6,6 +6,7 @@ from __future__ import annotations
 
 from ..core import Rule
 from . import engine_rules as E
+from .boundary_rules import native_float_specials
 from .memo_rules import memo_keys_rule
 
 EXPLANATION = (
@@ -42,6 +43,7 @@ RULES = [
     Rule('C02.F3', 'a value MPFR hands back is used only after its overflow / underflow flags were consulted (MPFR has an exponent range of its own)', E.f3_mpfr_exponent_range, 1, 'F'),
     Rule('C02.F2', 'every callable handed to the wrapper is a single MPFR operation', E.f2_single_operation('C02'), 15, 'F'),
     Rule('C02.S3', 'local MPFR wrappers compute the operation they are named after (neg, abs, pow, lgamma = first component of gmp.lgamma); special operands reach MPFR with their sign', E.s3_wrapper_primitives, 4, 'S,T'),
+    Rule('C02.S4', 'a native float operand keeps the sign of a NaN or an infinity on the way in (read with copysign, not `<`)', native_float_specials, 4, 'S,T'),
     Rule('C02.G1', 'helper-answered MPFR methods: _mod takes floor of a quotient kept to the units digit and subtracts exactly; _fdim is one subtraction at (prec, n); special-operand tables', E.g1_helper_methods, 14, 'G,T'),
     Rule('C02.M1', 'a remembered engine result is keyed by every input it was computed from', memo_keys_rule(('fpy2/number/engine/', 'fpy2/number/gmputils.py', 'fpy2/ops.py'), 'operands, precision and digit position'), 1, 'M'),
     Rule('C02.T1', 'RealEngine: ceil/floor/trunc/roundint = RTP/RTN/RTZ/RNA at n=-1; sub, fma composed of exact ops', E.t1_real_engine, 9, 'T'),
@@ -53,6 +55,9 @@ from ..selftest import Mutant  # noqa: E402
 OPS, GMP, REAL, GU = E.OPS, E.GMP, E.REAL, E.GMPUTILS
 
 MUTANTS = [
+    Mutant('nan-sign-read-with-less-than', 'fpy2/number/number/floats.py', "        if math.isnan(x):\n            s = math.copysign(1, x) < 0\n            return Float.nan(s=s, ctx=ctx)\n        elif math.isinf(x):\n            s = x < 0\n            return Float.inf(s=s, ctx=ctx)",
+           "        if math.isnan(x) or math.isinf(x):\n            return Float(s=x < 0, isnan=math.isnan(x), isinf=math.isinf(x), ctx=ctx)", 'C02.S4',
+           'seeded change C02e: copysign(3.0, -nan) is +3.0'),
     Mutant('nan-operand-loses-its-sign', 'fpy2/number/gmputils.py', "            return gmp.set_sign(gmp.nan(), x.s)", "            return gmp.nan()", 'C02.S3',
            'finding F79 before its repair: copysign(3, -NaN) is +3'),
     Mutant('sub-is-add-of-a-rounded-negation', 'fpy2/ops.py', "    xr = _cvt_to_real(x)\n    yr = _cvt_to_real(y)\n    for engine in ENGINES:\n        r = engine.sub(xr, yr, ctx)\n        if r is not None:\n            r = _zero_sum(r, ctx, (_is_negative(xr), not _is_negative(yr)))\n            return _normalize(r, ctx, (xr, yr))\n\n    raise NotImplementedError(f'sub() not implemented for ctx={ctx}')",
